@@ -380,7 +380,7 @@ class Tracer:
                 if q.status is not None:
                     nxt.append(q)
                     continue
-                if self.follow_exceptions and _has_call(st) and s.handlers:
+                if self.follow_exceptions and _has_call(st) and (s.handlers or s.finalbody):
                     # the exception is raised by a call of this statement: its calls are recorded (the statement's own
                     # bindings do not happen), then control moves to the handlers
                     before = q.fork()
@@ -418,6 +418,11 @@ class Tracer:
                 handled.extend(self._block(h.body, [r], fi, depth))
         if not s.handlers:
             handled.extend(raised_inside)
+            for q in exc_points:        # try / finally: the exception passes through the finally block
+                q.status = 'raise'
+                q.ret = Val(ast.Name(id='<exception>', ctx=ast.Load()))
+                q.facts.append(('exception:propagates', True))
+                handled.append(q)
         outs.extend(handled)
         if s.finalbody:
             fin = []
